@@ -57,6 +57,13 @@ CLAIMED = {
         "Trusts scipy BVLS (1e-12 on these sizes) and HiGHS; defects smaller than the stated solver accuracy are invisible; '1 % of the bound range' is read per system (largest range).",
         "DESIGN.md section 6 C04",
     ),
+    "C05": (
+        "exhaustive small-scope enumeration of (n_samples x batch_size x procedure x configuration) plus Hypothesis-generated systems with row operations; metamorphic oracle = same call with batch_size=1",
+        "Every cell of the grid n<=4 (7 thorough) x batch_size in {1..n_max+2,'full',None} x {gaussian, poisson, excitation, variance-minimisation} x {plain, K+baseline+weights} is executed; "
+        "generated systems add random cells and permute/duplicate/drop/append row operations; high-accuracy pass-through exposes leakage above 1e-5.",
+        "The batch_size=1 call is the reference (its correctness is C04/C07/C09); Poisson compared at 5e-3, excitation at 2e-2 (SCS bisection).",
+        "DESIGN.md section 6 C05",
+    ),
 }
 
 PENDING_REASON = "check not built yet in this revision (planned, see DESIGN.md section 6); not claimed until its check runs quietly on the unchanged tree"
